@@ -198,7 +198,11 @@ def hoomd(chk, cls, sh, desc):
     if set(h.keys()) != expect:
         chk.violation("to_hoomd-keys", dict(desc, keys=sorted(h.keys()), expected=sorted(expect)))
         return
-    if not np.allclose(np.asarray(h["centroid"], float), 0, atol=1e-9):
+    # (the shape is moved by minus its centroid: what is left is the rounding of the centroid itself, which follows the size of the
+    # coordinates and, for thin shapes far from the origin, their conditioning)
+    Vh = np.asarray(sh.vertices, float) if hasattr(sh, "vertices") else np.asarray(sh.centroid, float)[None, :]
+    tolc = 1e-9 * max(1.0, float(np.max(np.abs(Vh)))) * (C.conditioning(Vh) if len(Vh) > 3 else 1.0)
+    if not np.allclose(np.asarray(h["centroid"], float), 0, atol=tolc):
         chk.violation("to_hoomd-centroid", dict(desc, centroid=np.asarray(h["centroid"]).tolist()))
     if "vertices" in h:
         core = getattr(sh, "polygon", None) or getattr(sh, "polyhedron", None) or sh
